@@ -78,22 +78,37 @@ def canon_atom(text):
     return text, True
 
 
-def atom_valuation(mapping, assignment, resolver=None):
-    """mapping: normalised text -> (atom, polarity); assignment: atom -> bool.  Comparison atoms are matched up to canon_atom()."""
+def atom_valuation(mapping, assignment, resolver=None, fnode=None):
+    """mapping: normalised text -> (atom, polarity); assignment: atom -> bool.  Comparison atoms are matched up to canon_atom(), and - when the function
+    node is given - up to the replacement of single-binding temporaries by their definitions (`n = a.shape[d]` ; `size > n`  ==  `size > a.shape[d]`)."""
+    def expand(text):
+        if fnode is None:
+            return None
+        try:
+            from .core import inline_expr
+            return norm(inline_expr(fnode, ast.parse(text, mode='eval').body))
+        except (SyntaxError, RecursionError):
+            return None
     cmap = {}
     for k, (a, pol) in mapping.items():
-        ck, cp = canon_atom(k)
-        cmap[ck] = (a, pol == cp)
+        for kk in (k, expand(k)):
+            if kk is None:
+                continue
+            ck, cp = canon_atom(kk)
+            cmap.setdefault(ck, (a, pol == cp))
 
     def val(text):
         if text in mapping:
             a, pol = mapping[text]
             return assignment[a] if pol else not assignment[a]
-        ck, cp = canon_atom(text)
-        if ck not in cmap:
-            raise Incomplete('condition atom `%s` is not understood by this rule' % text)
-        a, pol = cmap[ck]
-        return assignment[a] if (pol == cp) else not assignment[a]
+        for t in (text, expand(text)):
+            if t is None:
+                continue
+            ck, cp = canon_atom(t)
+            if ck in cmap:
+                a, pol = cmap[ck]
+                return assignment[a] if (pol == cp) else not assignment[a]
+        raise Incomplete('condition atom `%s` is not understood by this rule' % text)
     val.resolver = resolver
     return val
 
@@ -171,7 +186,7 @@ def guard_table(f, cfg, mapping, spec, effects):
             top = p[0]
     for vals in _it.product((False, True), repeat=len(atoms)):
         asg = dict(zip(atoms, vals))
-        val = atom_valuation(mapping, asg)
+        val = atom_valuation(mapping, asg, fnode=f.node)
         got, fired = raises_when(sites, val)
         if got != bool(spec(asg)):
             return False, 'for %s the function %s' % (asg, 'raises' if got else 'does not raise')
@@ -398,7 +413,7 @@ def check_once(model, R, P, B):
     R.rule(P + '.ONCE', 'grad_fn() is invoked at exactly one call site of the package - directly in the body of the sweep loop - and BackwardFunction.__call__ '
                         'calls the wrapped closure exactly once on every path', floor=2)
     sites = []
-    for fn in model.funcs.values():
+    for fn in model.live_funcs():
         if fn.parent is not None:
             continue
         for c in ast.walk(fn.node):
@@ -420,16 +435,36 @@ def check_once(model, R, P, B):
     R.ob(P + '.ONCE', f.qualname, 'one grad_fn() call per sweep iteration', ok,
          'each node of the order list gets its backward function called once: one call site, on the loop variable, not in an inner loop', _loc(f, B.sweep))
     bf = model.func('synapgrad.functional.BackwardFunction.__call__')
-    cfg = CFG(bf.node)
-    rets = [n for n in body_walk(bf.node) if isinstance(n, ast.Return)]
-    okb = bool(rets)
-    for r in rets:
-        calls = [c for c in ast.walk(r) if isinstance(c, ast.Call) and norm(c.func) == 'self.backward']
-        if len(calls) != 1:
-            okb = False
-    other = [c for c in body_walk(bf.node) if isinstance(c, ast.Call) and norm(c.func) == 'self.backward' and not any(any(x is c for x in ast.walk(r)) for r in rets)]
-    R.ob(P + '.ONCE', bf.qualname, '%d return paths each calling self.backward once' % len(rets), okb and not other,
-         'BackwardFunction.__call__ must invoke the closure exactly once whatever the stored args/kwargs', bf.loc)
+    # every path through __call__ (stored args / kwargs empty or not) invokes the stored closure exactly once and hands the stored arguments over
+    from .peval import PE
+    bad = []
+    n_paths = 0
+    try:
+        outs = PE(model, atoms_not_none=True).paths(bf, {}, max_paths=32)
+    except Incomplete as u:
+        R.incomplete_at(P + '.ONCE', bf.qualname, str(u))
+        outs = None
+    if outs is not None:
+        for o in outs:
+            n_paths += 1
+            if o.kind == 'raise':
+                bad.append('a path raises: %s' % (o.value,))
+                continue
+            calls = [c for c in o.calls if c[0] in ('self.backward', 'self._backward')]
+            if len(calls) != 1:
+                bad.append('%d invocations of the closure under %s' % (len(calls), o.conds))
+                continue
+            node = calls[0][3]
+            star = [norm(a.value) for a in node.args if isinstance(a, ast.Starred)]
+            dstar = [norm(k.value) for k in node.keywords if k.arg is None]
+            has_args = [v for t, v in o.conds if 'args' in t and 'kwargs' not in t]
+            has_kw = [v for t, v in o.conds if 'kwargs' in t]
+            if (has_args and has_args[-1] and not star) or (has_kw and has_kw[-1] and not dstar):
+                bad.append('stored arguments not handed over under %s: %s' % (o.conds, norm(node)))
+            if [a for a in node.args if not isinstance(a, ast.Starred)] or [k for k in node.keywords if k.arg is not None]:
+                bad.append('extra arguments: %s' % norm(node))
+    R.ob(P + '.ONCE', bf.qualname, '%d paths each invoking the stored closure once with the stored args / kwargs' % n_paths, outs is not None and not bad and n_paths > 0,
+         'BackwardFunction.__call__ must invoke the closure exactly once whatever the stored args/kwargs: %s' % bad[:2], bf.loc)
 
 
 def check_identity(model, R, P):
@@ -694,7 +729,7 @@ def check_writers(model, R, P, ops):
     R.rule(P + '.WRITERS', 'the only writers of Tensor._grad are Tensor.__init__, the grad setter, Tensor.backward, Tensor.zero_ (via the setter) and the += of op closures on their own children', floor=5)
     allowed = {TENSOR + '.__init__', TENSOR + '.grad.setter', TENSOR + '.backward', TENSOR + '.zero_'}
     closures = {cl.qualname for op in ops for cl in op.closures}
-    for fn in [f_ for f_ in model.funcs.values() if not f_.inlined_everywhere]:
+    for fn in model.live_funcs():
         for n in body_walk(fn.node):
             tg = []
             if isinstance(n, ast.Assign):
